@@ -16,11 +16,14 @@ BIN = {'Add': 'add', 'Sub': 'sub', 'Mul': 'mul', 'Div': 'div', 'Rem': 'rem',
 
 
 class Trees:
-    def __init__(self, db, fn, max_depth=40):
+    def __init__(self, db, fn, max_depth=40, inline=0):
         self.db = db
         self.fn = fn
         self.defs = common.defs_of(fn)
         self.max_depth = max_depth
+        # inline=n: a call of a workspace function whose result is one expression of its arguments (no merge of
+        # alternatives) is replaced by that expression, n levels deep -- code moved into a helper reads the same
+        self.inline = inline
 
     def const(self, c):
         if 'fn' in c:
@@ -97,6 +100,8 @@ class Trees:
         for p in path:
             if isinstance(base, tuple) and base[0] == 'agg' and isinstance(p, str) and p in base[3]:
                 base = base[3][p]
+            elif isinstance(base, tuple) and base[0] == 'tuple' and isinstance(p, str) and p.isdigit() and int(p) + 1 < len(base):
+                base = base[int(p) + 1]     # field of a tuple literal
             else:
                 base = ('proj', base, p)
         return base
@@ -153,8 +158,47 @@ class Trees:
             return ('len', args[0])
         if not local and name in ('index', 'get', 'get_unchecked') and len(args) == 2:
             return ('proj', args[0], ('idx', args[1]))
+        if local and self.inline > 0:
+            body = _return_tree(self.db, path, self.inline - 1)
+            if body is not None:
+                return self.norm(_subst(body, args))
         label = path if local else name
         return self.norm((label,) + tuple(args))
+
+
+_RT = {}
+
+
+def _return_tree(db, path, inline):
+    key = (id(db), path, inline)
+    if key not in _RT:
+        _RT[key] = None     # recursion guard
+        fn = db.fns.get(path)
+        if fn is not None and fn.has_mir and not fn.compact and len(fn.blocks) <= 60:
+            t = Trees(db, fn, inline=inline).local(0)
+            if not _has(t, ('phi', 'deep', '?', 'promoted?', 'const?')):
+                _RT[key] = t
+    return _RT[key]
+
+
+def _has(t, heads):
+    if isinstance(t, tuple):
+        if t and t[0] in heads:
+            return True
+        return any(_has(x, heads) for x in t[1:])
+    if isinstance(t, dict):
+        return any(_has(x, heads) for x in t.values())
+    return False
+
+
+def _subst(t, args):
+    if isinstance(t, tuple):
+        if len(t) == 2 and t[0] == 'arg' and isinstance(t[1], int):
+            return args[t[1] - 1] if 1 <= t[1] <= len(args) else t
+        return tuple(_subst(x, args) if i else x for i, x in enumerate(t))
+    if isinstance(t, dict):
+        return {k: _subst(v, args) for k, v in t.items()}
+    return t
 
 
 def show(t, depth=0):
@@ -174,3 +218,81 @@ def show(t, depth=0):
         return f'{show(t[1])}.{p}'
     head = t[0].split('::')[-1] if isinstance(t[0], str) else str(t[0])
     return head + '(' + ', '.join(show(x) for x in t[1:]) + ')'
+
+
+class PathTrees(Trees):
+    """Def-use trees along ONE acyclic path of blocks: a local with several definitions resolves to the last one on
+    the path (at or before the anchor block) instead of ('phi', n). Path conditions are not solved; `decisions()` lists
+    the branch outcomes the path takes so that a rule can relate a value to the test that selected it and discard
+    paths that take the same test both ways."""
+
+    def __init__(self, db, fn, path, **kw):
+        super().__init__(db, fn, **kw)
+        self.path = list(path)
+        self.pos = {}
+        for i, b in enumerate(self.path):
+            self.pos.setdefault(b, i)
+
+    def local(self, l, depth=0):
+        if 1 <= l <= self.fn.arg_count:
+            return ('arg', l)
+        if depth > self.max_depth:
+            return ('deep', l)
+        ds = [d for d in self.defs.get(l, []) if d[0] in self.pos]
+        if not ds:
+            ds = self.defs.get(l, [])
+            if len(ds) != 1:
+                return ('phi', l)
+        bi, kind, x = max(ds, key=lambda d: self.pos.get(d[0], -1))
+        if kind == 'assign':
+            return self.rvalue(x, depth + 1)
+        return self.call(x, depth + 1, bi)
+
+    def decisions(self):
+        """[(condition tree, value taken)] for every switch on the path; value is the matched constant as a string, or
+        'otherwise'"""
+        out = []
+        for b, nxt in zip(self.path, self.path[1:]):
+            t = self.fn.blocks[b]['term']
+            if t['k'] != 'switch':
+                continue
+            taken = 'otherwise'
+            for v, tb in t.get('targets', []):
+                if tb == nxt:
+                    taken = str(v)
+            if taken == 'otherwise' and t.get('otherwise') != nxt:
+                continue
+            out.append((self.operand(t['op']), taken))
+        return out
+
+    def consistent(self):
+        seen = {}
+        for c, v in self.decisions():
+            if isinstance(c, tuple) and c[0] == 'val':
+                # the tested value is a constant on this path (a flag set in the arm just taken)
+                if (v == 'otherwise') != (c[1] != 0) if v in ('0', 'otherwise') else str(c[1]) != v:
+                    return False
+                continue
+            k = repr(c)
+            if k in seen and seen[k] != v:
+                return False
+            seen[k] = v
+        return True
+
+
+def paths_to(fn, target, limit=4000):
+    """acyclic block paths from the entry to `target` (cleanup blocks excluded); None when there are more than `limit`"""
+    out = []
+    stack = [(0, (0,))]
+    can = fn.can_reach({target})
+    while stack:
+        b, p = stack.pop()
+        if b == target:
+            out.append(list(p))
+            if len(out) > limit:
+                return None
+            continue
+        for s_ in fn.succ(b):
+            if s_ in can and s_ not in p and not fn.blocks[s_].get('cleanup'):
+                stack.append((s_, p + (s_,)))
+    return out
